@@ -172,7 +172,7 @@ CLAIMS = {
 
 # rules added after wave 8 (DESIGN.md 6.10)
 _ADDED = {
-    'C01': ' Optional values of the signature/keyword helpers (the typed key of `**<expr>`, the pydoc topic of True/None) are used only under the test or handler that makes them safe (C01.s).',
+    'C01': ' Optional values of the signature/keyword helpers (the typed key of `**<expr>`, the pydoc topic of True/None) are used only under the test or handler that makes them safe (C01.s); path strings of the analysed text with a NUL character are kept away from the file system calls (C01.t, two genuine crashes repaired).',
     'C04': ' Instance attributes: the self-attribute filter keeps a `<receiver>.x = ...` on the receiver\'s goto result alone (closures nested in methods included; path summary of _is_in_right_scope) and drops candidates only for the six listed reasons (C04.j); the seen-set of filter_names holds only keys of completions that were offered (C04.k, a genuine defect repaired).',
     'C05': ' The keyword of a call argument is linked to the parameter of every signature of every callable the callee may be: the walk over values x signatures x parameter names has no early exit (C05.g); a defining name is passed over by the global-statement step only when it has no tree name (C05.h).',
     'C06': ' The parenthesisation of inline is decided as a table over four facts of the use site and the value\'s tuple-ness (C06.a): nothing else can switch the parentheses off; the use site of a name that ends an attribute chain is the parent of the chain (a genuine defect repaired).',
